@@ -14,6 +14,8 @@ if [ ! -d "$d/repo" ]; then
   sed -i "s#/verif/.work/target#$d/target#" "$d/harness/.cargo/config.toml"
   # reuse already compiled dependencies
   mkdir -p "$d/target"; cp -al /verif/.work/target/release "$d/target/release" 2>/dev/null || true
+  # C19 builds the in-tree example programs into its own target directory: reuse their compiled dependencies too
+  if [ -d /verif/.work/target-examples/debug ]; then mkdir -p "$d/target-examples"; cp -al /verif/.work/target-examples/debug "$d/target-examples/debug" 2>/dev/null || true; fi
 fi
 rsync -a --exclude target --exclude Cargo.toml --exclude .cargo /verif/harness/ "$d/harness/"
 git -C "$d/repo" checkout -q -- . 
